@@ -17,8 +17,8 @@ ID = "C13"
 CASES = {"quick": 480, "thorough": 6000}
 FLOOR = {"quick": 420, "thorough": 5500}
 FLOOR_COUNTERS = {
-    "quick": {"relations_judged": 6000, "x_wider_cases": 50, "x_narrower_cases": 50, "lre_calls": 900, "grd_calls": 800, "overlapping_index_cases": 50, "planted_map_cases": 60, "reference_implementations_judged": 250, "large_offset_shift_relations": 100, "integer_typed_inputs": 150, "target_rotations_with_default_scoring": 150, "index_arrays_reused_on_other_data": 20, "parallel_lre_calls": 20, "weak_direction_planted_maps": 15, "reused_estimators_with_a_refused_call": 30, "shared_scaler_objects": 60},
-    "thorough": {"relations_judged": 80000, "x_wider_cases": 600, "x_narrower_cases": 600, "lre_calls": 12000, "grd_calls": 10000, "overlapping_index_cases": 700, "planted_map_cases": 800, "reference_implementations_judged": 3500, "large_offset_shift_relations": 1200, "integer_typed_inputs": 2000, "target_rotations_with_default_scoring": 2000, "index_arrays_reused_on_other_data": 280, "parallel_lre_calls": 300, "weak_direction_planted_maps": 200, "reused_estimators_with_a_refused_call": 400, "shared_scaler_objects": 800},
+    "quick": {"lre_calls_with_more_than_2^24_pairs": 1, "relations_judged": 6000, "x_wider_cases": 50, "x_narrower_cases": 50, "lre_calls": 900, "grd_calls": 800, "overlapping_index_cases": 50, "planted_map_cases": 60, "reference_implementations_judged": 250, "large_offset_shift_relations": 100, "integer_typed_inputs": 150, "target_rotations_with_default_scoring": 150, "index_arrays_reused_on_other_data": 20, "parallel_lre_calls": 20, "weak_direction_planted_maps": 15, "reused_estimators_with_a_refused_call": 30, "shared_scaler_objects": 60},
+    "thorough": {"lre_calls_with_more_than_2^24_pairs": 1, "relations_judged": 80000, "x_wider_cases": 600, "x_narrower_cases": 600, "lre_calls": 12000, "grd_calls": 10000, "overlapping_index_cases": 700, "planted_map_cases": 800, "reference_implementations_judged": 3500, "large_offset_shift_relations": 1200, "integer_typed_inputs": 2000, "target_rotations_with_default_scoring": 2000, "index_arrays_reused_on_other_data": 280, "parallel_lre_calls": 300, "weak_direction_planted_maps": 200, "reused_estimators_with_a_refused_call": 400, "shared_scaler_objects": 800},
 }
 RULE = (
     "case = X, Y with equal sample count (12-60) and feature counts 2-8 on each side (X wider / equal / narrower by "
@@ -35,7 +35,56 @@ ASSUMPTIONS = [
 ]
 
 
+def _run_huge(case, j):
+    """LRE with more than 2^24 test x training pairs (4200 x 4000): a bulk of ordinary samples and a small, tight
+    group far away from it, whose members have their nearest neighbours inside the group; judged by the explicit
+    k-nearest-neighbour local ridge on directly computed coordinate differences."""
+    from sklearn.linear_model import Ridge
+
+    from skmatter import metrics as M
+
+    rg = np.random.default_rng(case["seed"])
+    ntr, nte, nfar, k, alpha = 4200, 4000, 50, 6, 1e-8
+    n = ntr + nte
+    X = rg.normal(size=(n, 2))
+    far = np.r_[0:nfar, ntr : ntr + nfar]
+    X[far] = 40.0 + 0.005 * rg.random(size=(2 * nfar, 2))
+    Y = np.column_stack([np.sin(300 * (X[:, 0] - 40)), np.cos(300 * (X[:, 1] - 40))])
+    tr, te = np.arange(ntr), np.arange(ntr, n)
+    j.tag("pairs:more_than_2^24", "Xequal")
+
+    def scale(A_tr, A_te):
+        mu = A_tr.mean(axis=0)
+        sd = np.sqrt(((A_tr - mu) ** 2).mean(axis=0).sum())
+        return (A_tr - mu) / sd, (A_te - mu) / sd
+
+    Xa, Xb = scale(X[tr], X[te])
+    Ya, Yb = scale(Y[tr], Y[te])
+    got = np.asarray(j.lib("pointwise LRE (4200 x 4000)", M.pointwise_local_reconstruction_error, X, Y, k, train_idx=tr, test_idx=te, estimator=Ridge(alpha=alpha, fit_intercept=False)))
+    ref, ok = np.zeros(nte), np.ones(nte, bool)
+    for i in range(nte):
+        d2 = ((Xa - Xb[i]) ** 2).sum(axis=1)
+        order = np.argpartition(d2, k)[: k + 1]
+        order = order[np.argsort(d2[order])]
+        if d2[order[k]] - d2[order[k - 1]] <= 1e-6 * d2[order[k]]:
+            ok[i] = False
+            continue
+        nb = order[:k]
+        mx, my = Xa[nb].mean(axis=0), Ya[nb].mean(axis=0)
+        A0 = Xa[nb] - mx
+        W0 = np.linalg.solve(A0.T @ A0 + alpha * np.eye(2), A0.T @ (Ya[nb] - my))
+        ref[i] = np.linalg.norm(Yb[i] - (my + (Xb[i] - mx) @ W0))
+    # a local fit on six nearly collinear neighbours can be ill-conditioned: judged where the ridge system is not
+    j.close("pointwise LRE == explicit k-nearest-neighbour local ridge reconstruction (more than 2^24 pairs)", got[ok], ref[ok], 1e-5 * max(1.0, float(ref[ok].max())))
+    j.close("LRE == root mean square of the pointwise values (more than 2^24 pairs)", float(M.local_reconstruction_error(X, Y, k, train_idx=tr, test_idx=te, estimator=Ridge(alpha=alpha, fit_intercept=False))), float(np.sqrt(np.mean(got**2))), 1e-9)
+    j.note("lre_calls_with_more_than_2^24_pairs")
+    j.nontrivial = True
+    j.sample = {"train": ntr, "test": nte, "k": k, "judged_points": int(ok.sum())}
+
+
 def gen(rng, tier, index):
+    if index == CASES[tier] - 1:
+        return {"huge": True, "seed": int(rng.integers(1 << 30))}
     n = int(rng.integers(12, 45 if tier == "quick" else 90))
     f = int(rng.integers(2, 9))
     rel = index % 3
@@ -121,6 +170,8 @@ def _scaler(kind):
 
 
 def run(case, j):
+    if case.get("huge"):
+        return _run_huge(case, j)
     from skmatter import metrics as M
 
     X, Y = case["X"], case["Y"]
